@@ -5,9 +5,9 @@ HTOK_T = 'contract-based deductive verification (Verus): simulation of the WHATW
 
 PROPS = {
     'C01': dict(verus=['u_small', 'u_htok', 'u_hcr'], level='proof', technique=HTOK_T),
-    'C02': dict(verus=['u_tagsets', 'u_foreign', 'u_fmt', 'u_dispatch', 'u_stack', 'u_aaa', 'u_fcontent', 'u_tmpl', 'u_modes', 'u_table', 'u_inbody', 'u_inhead', 'u_misa', 'u_frag'], kani_quick=['b_shadow'], level='proof', technique='contract-based deductive verification (Verus): tag-set predicates and foreign-content tables checked for every name against the lists of the standard; stack-of-open-elements algorithms (in scope, implied end tags, pop until, any other end tag, reset insertion mode, reconstruct formatting, appropriate insertion place, adoption agency) against recursive definitions written from the standard'),
+    'C02': dict(verus=['u_tagsets', 'u_foreign', 'u_fmt', 'u_dispatch', 'u_stack', 'u_aaa', 'u_fcontent', 'u_tmpl', 'u_modes', 'u_table', 'u_inbody', 'u_inhead', 'u_misa', 'u_frag', 'u_ttext'], kani_quick=['b_shadow'], level='proof', technique='contract-based deductive verification (Verus): tag-set predicates and foreign-content tables checked for every name against the lists of the standard; stack-of-open-elements algorithms (in scope, implied end tags, pop until, any other end tag, reset insertion mode, reconstruct formatting, appropriate insertion place, adoption agency) against recursive definitions written from the standard'),
     'C03': dict(verus=['u_small', 'u_bq', 'u_htok', 'u_hcr'], level='proof', technique=HTOK_T),
-    'C04': dict(verus=['u_small', 'u_bq', 'u_htok', 'u_hcr', 'u_xtok', 'u_xcr', 'u_qname', 'u_utf8', 'u_stack', 'u_aaa', 'u_fcontent', 'u_tmpl', 'u_modes', 'u_table', 'u_inbody', 'u_inhead', 'u_misa', 'u_frag', 'u_xtb'], level='proof', technique=HTOK_T),
+    'C04': dict(verus=['u_small', 'u_bq', 'u_htok', 'u_hcr', 'u_xtok', 'u_xcr', 'u_qname', 'u_utf8', 'u_stack', 'u_aaa', 'u_fcontent', 'u_tmpl', 'u_modes', 'u_table', 'u_inbody', 'u_inhead', 'u_misa', 'u_frag', 'u_ttext', 'u_xtb'], level='proof', technique=HTOK_T),
     'C07': dict(verus=['u_hser'], kani_quick=['b_hser'], level='proof', technique='contract-based deductive verification (Verus) of the verbatim-extracted HtmlSerializer escaping / raw-text logic against a spec escape function with proved reversibility and confinement lemmas'),
     'C08': dict(verus=['u_htok', 'u_tbtok'], level='proof', technique=HTOK_T),
     'C09': dict(verus=['u_htok', 'u_hcr', 'u_tbtok'], level='proof', technique=HTOK_T),
